@@ -1,6 +1,8 @@
 package loop
 
 import (
+	"crypto/sha256"
+	"encoding/hex"
 	"fmt"
 	"go/constant"
 	"go/token"
@@ -140,8 +142,17 @@ func (s *SCEVGenericExpr) EvaluateAt(k *big.Int, cache map[SCEV]*big.Int) *big.I
 		}
 	}
 	xVal := s.X.EvaluateAt(k, cache)
+	if xVal == nil {
+		if cache != nil {
+			cache[s] = nil
+		}
+		return nil
+	}
 	yVal := s.Y.EvaluateAt(k, cache)
-	if xVal == nil || yVal == nil {
+	if yVal == nil {
+		if cache != nil {
+			cache[s] = nil
+		}
 		return nil
 	}
 	res := new(big.Int)
@@ -166,7 +177,7 @@ func (s *SCEVGenericExpr) EvaluateAt(k *big.Int, cache map[SCEV]*big.Int) *big.I
 	return res
 }
 func (s *SCEVGenericExpr) IsLoopInvariant(loop *Loop) bool {
-	return s.X.IsLoopInvariant(loop) && s.Y.IsLoopInvariant(loop)
+	return dagIsLoopInvariant(s, loop)
 }
 func (s *SCEVGenericExpr) String() string {
 	return s.render(s.X.String(), s.Y.String())
@@ -221,7 +232,7 @@ func (s *SCEVMax) EvaluateAt(k *big.Int, cache map[SCEV]*big.Int) *big.Int {
 	return res
 }
 func (s *SCEVMax) IsLoopInvariant(loop *Loop) bool {
-	return s.X.IsLoopInvariant(loop) && s.Y.IsLoopInvariant(loop)
+	return dagIsLoopInvariant(s, loop)
 }
 func (s *SCEVMax) String() string { return fmt.Sprintf("max(%s, %s)", s.X.String(), s.Y.String()) }
 func (s *SCEVMax) StringWithRenamer(r Renamer) string {
@@ -232,6 +243,77 @@ func (s *SCEVMax) Type() types.Type              { return types.Typ[types.Int] }
 func (s *SCEVMax) Parent() *ssa.Function         { return nil }
 func (s *SCEVMax) Referrers() *[]ssa.Instruction { return nil }
 func (s *SCEVMax) Pos() token.Pos                { return token.NoPos }
+
+// dagIsLoopInvariant decides invariance of an expression by visiting every distinct node
+// once. Expressions share sub-expressions (x = x + x), so a plain recursion over both
+// operands takes time exponential in the depth of the expression.
+func dagIsLoopInvariant(root SCEV, loop *Loop) bool {
+	seen := make(map[SCEV]bool)
+	stack := []SCEV{root}
+	for len(stack) > 0 {
+		n := stack[len(stack)-1]
+		stack = stack[:len(stack)-1]
+		if n == nil || seen[n] {
+			continue
+		}
+		seen[n] = true
+		switch x := n.(type) {
+		case *SCEVGenericExpr:
+			stack = append(stack, x.X, x.Y)
+		case *SCEVMax:
+			stack = append(stack, x.X, x.Y)
+		case *SCEVAddRec:
+			if x.Loop == loop {
+				return false
+			}
+			stack = append(stack, x.Start, x.Step)
+		default:
+			if !n.IsLoopInvariant(loop) {
+				return false
+			}
+		}
+	}
+	return true
+}
+
+// MaxRenderedSCEVLen bounds the text produced for one SCEV node by RenderSCEV.
+const MaxRenderedSCEVLen = 256
+
+// RenderSCEV renders s like StringWithRenamer, but in time and space linear in the number of
+// distinct nodes: every node is rendered once (memo), and a rendering longer than
+// MaxRenderedSCEVLen is replaced by a digest of it. Expressions are DAGs (x = x + x shares its
+// operand), so printing them as trees is exponential in their depth.
+func RenderSCEV(s SCEV, r Renamer, memo map[SCEV]string) string {
+	if s == nil {
+		return "<nil>"
+	}
+	if out, ok := memo[s]; ok {
+		return out
+	}
+	var out string
+	switch n := s.(type) {
+	case *SCEVAddRec:
+		out = fmt.Sprintf("{%s, +, %s}", RenderSCEV(n.Start, r, memo), RenderSCEV(n.Step, r, memo))
+	case *SCEVGenericExpr:
+		out = n.render(RenderSCEV(n.X, r, memo), RenderSCEV(n.Y, r, memo))
+	case *SCEVMax:
+		out = fmt.Sprintf("max(%s, %s)", RenderSCEV(n.X, r, memo), RenderSCEV(n.Y, r, memo))
+	default:
+		out = s.StringWithRenamer(r)
+	}
+	out = BoundRendering(out)
+	memo[s] = out
+	return out
+}
+
+// BoundRendering replaces an over-long rendering by a digest of it.
+func BoundRendering(out string) string {
+	if len(out) <= MaxRenderedSCEVLen {
+		return out
+	}
+	sum := sha256.Sum256([]byte(out))
+	return "<expr:" + hex.EncodeToString(sum[:12]) + ">"
+}
 
 func AnalyzeSCEV(info *LoopInfo) {
 	if len(info.Loops) == 0 {
@@ -558,9 +640,11 @@ func deriveTripCount(loop *Loop) {
 	zero := &SCEVConstant{Value: big.NewInt(0)}
 
 	// Verify Direction for Safety
-	startC := iv.Start.EvaluateAt(nil, nil)
-	limitC := limitSCEV.EvaluateAt(nil, nil)
-	stepC := iv.Step.EvaluateAt(nil, nil)
+	// One evaluation cache for this loop: expressions are DAGs and must be visited once.
+	evalCache := make(map[SCEV]*big.Int)
+	startC := iv.Start.EvaluateAt(nil, evalCache)
+	limitC := limitSCEV.EvaluateAt(nil, evalCache)
+	stepC := iv.Step.EvaluateAt(nil, evalCache)
 
 	if startC != nil && limitC != nil && stepC != nil {
 		if !isNEQ {
@@ -606,7 +690,7 @@ func deriveTripCount(loop *Loop) {
 
 	if isNEQ {
 		// NEQ only valid for step 1 or -1
-		stepVal := iv.Step.EvaluateAt(nil, nil)
+		stepVal := iv.Step.EvaluateAt(nil, evalCache)
 		if stepVal == nil {
 			return
 		}
